@@ -159,3 +159,14 @@ def sany(module):
     p = subprocess.run(cmd, cwd=SPEC, stdout=subprocess.PIPE, stderr=subprocess.STDOUT, universal_newlines=True)
     bad = p.returncode != 0 or "error" in p.stdout.lower().replace("semantic errors:\n\n", "")
     return (not bad), p.stdout
+
+
+def iter_records(path):
+    """stream the PrintT(ToJson(..)) records of a finished run"""
+    with open(path, errors="replace") as f:
+        for line in f:
+            if line.startswith('"{') or line.startswith('"['):
+                try:
+                    yield json.loads(json.loads(line))
+                except ValueError:
+                    raise TLCError("undecodable record line in %s: %s" % (path, line[:200]))
